@@ -4,6 +4,7 @@
 From BX Require Import Base.Prelude Model.Mempool Model.MempoolSpec.
 From BX Require Import Proofs.MempoolLib Proofs.MempoolInv Proofs.MempoolGen Proofs.MempoolReach
   Proofs.MempoolTrace3 Proofs.MempoolProofs.
+From BX Require Import Model.TxCache Proofs.TxCacheProofs Proofs.TxCacheCompose.
 Local Open Scope N_scope.
 
 (** every C19 predicate on every history, in one statement ... *)
@@ -89,6 +90,40 @@ Theorem C19_no_stale_hash : forall p accts univ s, reachable p accts univ s -> f
   alookup tx_eqb h (hashmap s) = Some sl -> sl = slot_of h /\ item_at s sl <> None.
 Proof. exact hashmap_live. Qed.
 Print Assumptions C19_no_stale_hash.
+
+(** the intake cache in front of the pool (tx_cache.go), model Model/TxCache.v: over ALL sequences of
+    Recv(txs) / Tick / ConsumerTakes, the sets delivered so far, concatenated, followed by what is
+    still inside the cache, are exactly the accepted transactions - each once, in order *)
+Theorem C19_intake_no_loss : forall size ops,
+  concat (delivered (snd (crun size cs0 ops))) ++ inflight (fst (crun size cs0 ops)) = received ops.
+Proof. exact intake_no_loss. Qed.
+Print Assumptions C19_intake_no_loss.
+
+(** ... and after taking what is offered, one timer event and one more take, nothing is left inside:
+    the delivered sets carry every accepted transaction exactly once, in order *)
+Theorem C19_intake_drained : forall k ops,
+  let size := set_size k in
+  let n := weight (fst (crun size cs0 ops)) in
+  let r := crun size cs0 (ops ++ flush_ops n) in
+  inflight (fst r) = [] /\ concat (delivered (snd r)) = received ops.
+Proof. exact intake_drained. Qed.
+Print Assumptions C19_intake_drained.
+
+(** composition with the pool: the delivered sets, handed to ProcessTransactions in order, are a
+    good history, so every C19 (and C18) predicate holds for what happens to them afterwards *)
+Theorem C19_intake_compose : forall p accts univ k ops leader now,
+  (forall t, In t (received ops) -> In t univ /\ In (t_acct t) accts) ->
+  let sets := delivered (snd (crun (set_size k) cs0 ops)) in
+  good_history accts univ (pool_history leader now sets) /\
+  model_fails p accts univ (pool_history leader now sets) = [].
+Proof. exact intake_compose. Qed.
+Print Assumptions C19_intake_compose.
+
+Example C19_intake_example :
+  snd (crun 2 cs0 [CRecv [Witness.A0; Witness.A1; Witness.A2; Witness.A3; Witness.A5]; CTake; CTake; CTake; CTick; CTake]) =
+  [OutRecv; OutTake (Some [Witness.A0; Witness.A1]); OutTake (Some [Witness.A2; Witness.A3]); OutTake None;
+   OutTick true; OutTake (Some [Witness.A5])].
+Proof. vm_compute. reflexivity. Qed.
 
 Theorem C19_P_b_spec : forall p accts univ tr, P_b p accts univ C19_codes tr = true <-> P p accts univ C19_codes tr.
 Proof. exact P_b_spec_C19. Qed.
